@@ -12,10 +12,12 @@ Rows == JsonDeserialize(IOEnv.VF_IN)
 VARIABLE i
 Init == i \in 1..Len(Rows)
 Next == UNCHANGED i
+\* the per-file parents of a key are an ordered list in the repository and a set in the model
+FpSet(q) == {<<k[1], k[2], Set(k[3])>> : k \in Set(q)}
 Drift(r) == LET o == r.impl s == r.spec
             IN o.outcome = "ok" /\ ~ (/\ Set(o.trevs) = Set(s.revs) /\ Set(o.tinvs) = Set(s.invs)
                                       /\ Set(o.ttexts) = Set(s.texts) /\ Set(o.tsigs) = Set(s.sigs)
-                                      /\ Set(o.stexts) = Set(s.stexts) /\ Set(o.sfp) = Set(s.sfp))
+                                      /\ Set(o.stexts) = Set(s.stexts) /\ FpSet(o.sfp) = FpSet(s.sfp))
 Bad == SelectSeq([k \in 1..Len(Rows) |->
                     [row |-> k, failed |-> SetToSeq(FetchFailed(Rows[k].c, Rows[k].impl)), drift |-> Drift(Rows[k])]],
                  LAMBDA r : r.failed # <<>> \/ r.drift)
